@@ -167,6 +167,9 @@ def eval_real(c):
     sys.setrecursionlimit(old)
     rec = {'out': out, 'viol': None}
     srt = conn.last_server_response_time
+    if any(k.lower() == 'wbemserverresponsetime' for k in c['headers']) and c.get('sockfault') is None \
+            and c.get('transport_exc') is None and c.get('bodyfault') is None and not op.flags.get('iter'):
+        rec['srt'] = srt is not None
     if srt is not None and not isinstance(srt, float):
         # documented: "the server response time in seconds (float) ... or None"
         rec['viol'] = ({'kind': 'undocumented_attribute', 'attr': 'last_server_response_time', 'type': type(srt).__name__},
@@ -632,6 +635,20 @@ def run(run):
         run.count('http_payload:' + rec['cls'])
         if got != want:
             run.disagree(case_json(c), got, want, 'HTTPError attributes / AuthError scheme text: Envelope.httpErrorInfo, basicOffered')
+    # WBEMServerResponseTime header (Envelope.serverResponseTime)
+    sc = [(c, rec) for c, rec in zip(cases, reals) if 'srt' in rec]
+    sreqs = []
+    for c, _ in sc:
+        T = Tables2()
+        for k, v in c['headers'].items():
+            if k.lower() == 'wbemserverresponsetime':
+                T.text(v)
+        sreqs.append({'op': 'http', 'codec': T.to_json(), 'http': {'status': c['status'], 'headers': [
+            [cimproto.cps(k), cimproto.cps(v)] for k, v in c['headers'].items()]}})
+    for (c, rec), ans in zip(sc, common.run_driver(PROP, sreqs) if sreqs else []):
+        run.count('srt:' + str(rec['srt']))
+        if ans.get('srt') != rec['srt']:
+            run.disagree(case_json(c), ans.get('srt'), rec['srt'], 'last_server_response_time set: Envelope.serverResponseTime')
     # the same responses from their TEXT: XmlParse.par as the SAX layer (Model/Wire.lean: operationText)
     tcases = []
     for (c, rec), q in zip(mcases, [reqs[i] for i in keep]):
